@@ -218,38 +218,57 @@ func (b *broker) setIntercept(f func(m message.Message) ([][]byte, bool)) {
 }
 
 type wireEnv struct {
-	conn *wire.ClientConn
-	br   *broker
-	cli  *pipeEnd
+	conn       *wire.ClientConn
+	br         *broker
+	cli        *pipeEnd
+	ucli, usrv *pipeEnd // the unreliable transport's two ends (nil when not attached)
 }
 
 // dial connects a real wire.ClientConn (real encoding.Transport, real decoder) to a fresh broker.
 func dial(e enc, pingInterval, pingTimeout time.Duration, connectIntercept func(m message.Message) ([][]byte, bool)) (*wireEnv, error) {
+	return dialU(e, pingInterval, pingTimeout, connectIntercept, false)
+}
+
+// dialU optionally attaches a second, "unreliable" transport (its read loop only routes DownstreamChunk frames).
+func dialU(e enc, pingInterval, pingTimeout time.Duration, connectIntercept func(m message.Message) ([][]byte, bool), unreliable bool) (*wireEnv, error) {
 	cli, srv := newPipe()
 	br := &broker{rw: srv, e: e, pingSeen: make(chan uint32, 1024), done: make(chan struct{}), intercept: connectIntercept}
+	cfg := &wire.ClientConnConfig{
+		Transport:       encoding.NewTransport(&encoding.TransportConfig{Transport: cli, Encoding: e.e}),
+		ProtocolVersion: "2.0.0",
+		NodeID:          "c12-node",
+		PingInterval:    pingInterval,
+		PingTimeout:     pingTimeout,
+	}
+	w := &wireEnv{br: br, cli: cli}
+	if unreliable {
+		w.ucli, w.usrv = newPipe()
+		cfg.UnreliableTransport = encoding.NewTransport(&encoding.TransportConfig{Transport: w.ucli, Encoding: e.e})
+	}
 	go br.run()
 	var conn *wire.ClientConn
 	var err error
-	ok, _ := vrun.Watchdog(60*time.Second, func() {
-		conn, err = wire.Connect(&wire.ClientConnConfig{
-			Transport:       encoding.NewTransport(&encoding.TransportConfig{Transport: cli, Encoding: e.e}),
-			ProtocolVersion: "2.0.0",
-			NodeID:          "c12-node",
-			PingInterval:    pingInterval,
-			PingTimeout:     pingTimeout,
-		})
-	})
+	ok, _ := vrun.Watchdog(60*time.Second, func() { conn, err = wire.Connect(cfg) })
 	if !ok {
-		cli.Close()
-		srv.Close()
+		w.close()
 		return nil, errConnectStuck
 	}
 	if err != nil {
-		cli.Close()
-		srv.Close()
-		return &wireEnv{br: br, cli: cli}, err
+		w.close()
+		return w, err
 	}
-	return &wireEnv{conn: conn, br: br, cli: cli}, nil
+	w.conn = conn
+	return w, nil
+}
+
+// inject writes frames to the reliable transport and, when there is one, to the unreliable transport as well.
+func (w *wireEnv) inject(frames ...[]byte) {
+	w.br.send(frames...)
+	if w.usrv != nil {
+		for _, f := range frames {
+			_ = w.usrv.Write(f)
+		}
+	}
 }
 
 var errConnectStuck = fmt.Errorf("wire.Connect did not return within 60 s")
@@ -260,6 +279,10 @@ func (w *wireEnv) close() {
 	}
 	w.cli.Close()
 	w.br.rw.Close()
+	if w.ucli != nil {
+		w.ucli.Close()
+		w.usrv.Close()
+	}
 }
 
 // ---- frames of a given type carrying a given request id
